@@ -36,14 +36,33 @@ func vfMixes(checkC07, checkC08 bool, handover ...bool) {
 	r.checkHandover = len(handover) > 0 && handover[0]
 	var kinds []vfReqKind
 	for i := 0; i < nreq; i++ {
-		name := "k0"
-		if i == 1 {
-			name = "k1"
-		} else if i == 2 {
-			name = "k2"
-		}
-		kinds = append(kinds, vfMixKinds[zzvf.Param(name)])
+		kinds = append(kinds, vfMixKinds[zzvf.Param([]string{"k0", "k1", "k2", "k3"}[i])])
 	}
+	// established: the connection already holds a direct subscription on
+	// test.model; atlimit: with its direct count at the limit (the state is
+	// constructed directly instead of replaying 256 subscribe requests)
+	atLimit := zzvf.ParamOr("atlimit", 0) == 1
+	if zzvf.ParamOr("established", 0) == 1 || atLimit {
+		r.issue(vfMixKinds[0])
+		w.settle()
+		for i := 0; i < 4; i++ {
+			p := w.mq.pending()
+			if len(p) == 0 {
+				break
+			}
+			r.answer(p[0], vfOutcomes(p[0].subject, false)[0])
+			w.settle()
+		}
+		r.observe()
+		zzvf.Assert(r.count["test.model"] == 1 && r.directCount("test.model") == 1, "harness-established")
+		if atLimit {
+			cl.c.subs["test.model"].direct = SubscriptionCountLimit
+			r.count["test.model"] = SubscriptionCountLimit
+		}
+	}
+	// the unsubscribe-while-in-flight finding (D1-count) is listed: the
+	// model adopts the gateway's answer and the history goes on
+	zzvf.ContinueAfterKnown(checkC08)
 	next := 0
 	eventsLeft := evs
 	zzvf.Reach("mixes-start")
@@ -117,6 +136,17 @@ func vfMixes(checkC07, checkC08 bool, handover ...bool) {
 		if checkC08 {
 			vfCheckUnsubscribeResults(r, frames)
 		}
+		if atLimit {
+			for _, fr := range frames {
+				if fr.ID == nil {
+					continue
+				}
+				if it := r.findIssued(*fr.ID); it != nil && it.kind.verb == "subscribe" && it.kind.rid == "test.model" && it.responses == 1 && r.count["test.model"] >= SubscriptionCountLimit && it != r.issued[0] {
+					zzvf.Reach("mixes-at-limit")
+					zzvf.Assert(!it.ok && it.errCode == "system.subscriptionLimitExceeded", "subscribe-beyond-the-limit-is-refused")
+				}
+			}
+		}
 	}
 	zzvf.Assert(vfQuiescent(w), "run-reaches-quiescence")
 	zzvf.Reach("mixes-quiescent")
@@ -153,6 +183,14 @@ func vfCheckUnsubscribeResults(r *vfRun, frames []vfFrame) {
 			zzvf.Assert(it.ok, "unsubscribe-succeeds-when-count-within-subscriptions")
 		} else {
 			zzvf.Assert(!it.ok && it.errCode == "system.noSubscription", "unsubscribe-fails-with-noSubscription")
+			if it.ok {
+				// (known finding, the run continues) the gateway let the
+				// unsubscribe consume a request still in flight, which
+				// will now fail: adopt its view
+				if r.count[it.kind.rid] < 0 {
+					r.count[it.kind.rid] = 0
+				}
+			}
 		}
 	}
 }
